@@ -231,8 +231,12 @@ class HPool(HostConnection):
 
 
 class Harness(object):
-    def __init__(self, n_init=4, max_in_flight=4, thr=2, thread_threshold=None):
+    def __init__(self, n_init=4, max_in_flight=4, thr=2, thread_threshold=None, control=False, protocol_version=4):
         self.n_init, self.mif, self.thr = n_init, max_in_flight, thr
+        self.control, self.protocol_version = control, protocol_version
+        self.raising = set()              # handlers that raise when they are told about the connection failure
+        self.prepare_delivered = []
+        self.auto_tok = 5000
         self.points = []
         self.pending = []
         self.events = []
@@ -280,22 +284,34 @@ class Harness(object):
         self.session._pools[self.host] = self.pool
         self.pool_live = True
         self.checkpoint_enabled = True
+        self.points.append(([], self.snap()))      # the state the REAL constructor produced
 
     # ------------------------------------------------------------------ construction
     def _make_conn(self, on_released):
         C = self.Conn
         c = C.__new__(C)
         c.h = None
-        c.max_in_flight = self.mif
-        Connection.__init__(c, host='127.0.0.1', protocol_version=4, on_orphaned_stream_released=on_released)
-        c.request_ids = deque(range(self.n_init))
-        c.highest_request_id = self.n_init - 1
-        c.orphaned_threshold = self.thr
+        if self.mif is not None:
+            c.max_in_flight = self.mif
+        # the REAL constructor builds the free-id deque / highest_request_id / max_request_id
+        Connection.__init__(c, host='127.0.0.1', protocol_version=self.protocol_version, on_orphaned_stream_released=on_released)
+        real = list(c.request_ids)
+        if self.n_init is not None and self.n_init < len(real):
+            # start from fewer pre-allocated ids (so that the grow path is reached with few requests): keep the first
+            # n_init ids and keep the constructor's own relation between the deque and highest_request_id
+            drop = len(real) - self.n_init
+            c.request_ids = deque(real[:self.n_init])
+            c.highest_request_id = c.highest_request_id - drop
+        self.n_init_eff = len(c.request_ids)
+        if self.thr is not None:
+            c.orphaned_threshold = self.thr
+        self.thr_eff = c.orphaned_threshold
+        c.is_control_connection = self.control
         c.h = self
         return c
 
     def model_init(self):
-        return '(init %d %d %d)' % (self.n_init, self.conn.__dict__['_mri_real'], self.thr)
+        return '(init %d %d %d)' % (self.n_init_eff, self.conn.__dict__['_mri_real'], self.thr_eff)
 
     # ------------------------------------------------------------------ recording
     def emit(self, *ops):
@@ -371,6 +387,8 @@ class Harness(object):
             h.checkpoint()
             saved, h.pm = h.pm, (dict(h.pm, frozen=True) if h.pm else None)
             h.cb_stack.append(tok)
+            if h.tokens.get(tok, {}).get('kind') == 'prepare':
+                h.prepare_delivered.append(tok)
             try:
                 if inner is not None:
                     inner(resp)
@@ -378,6 +396,8 @@ class Harness(object):
             finally:
                 h.cb_stack.pop()
                 h.pm = saved
+            if tok in h.raising and isinstance(resp, ConnectionShutdown):
+                raise RuntimeError('handler %r raises when told about the connection failure' % (tok,))
         cb.tok = tok
         return cb
 
@@ -441,6 +461,10 @@ class Harness(object):
 
     def _send_msg(self, conn, msg, request_id, cb, a, kw):
         tok = self.next_token
+        if tok is None:
+            self.auto_tok += 1
+            tok = self.auto_tok
+            self.tokens[tok] = {'kind': 'auto'}
         nested_cb = self.next_nested_cb
         self.next_token = None
         wrapped = self.make_cb(tok, cb, nested_cb)
@@ -571,6 +595,8 @@ class Harness(object):
         rf._timer = None
         rf._current_host = self.host
         rf.timeout = None
+        rf.query = None
+        rf.query_plan = iter(())
         return rf
 
     def do(self, a):
@@ -674,8 +700,8 @@ class Harness(object):
         r = a.get('r')
         if r is None and self.cb_stack:
             r = self.cb_stack[-1]
-        if r not in self.owed_tokens:
-            return
+        if r not in self.owed_tokens or self.tokens.get(r, {}).get('kind') == 'prepare':
+            return       # the unit of a re-PREPARE is handed back by the real _execute_after_prepare (a_run_tasks)
         self.owed_tokens.discard(r)
         self.pool.return_connection(self.conn)
 
@@ -703,6 +729,45 @@ class Harness(object):
         finally:
             self.feeding = None
         self.checkpoint()
+
+    def a_reprepare(self, a):
+        """inside the callback of an EXECUTE answered with UNPREPARED: the REAL ResponseFuture._reprepare (borrow + send PREPARE;
+        its callback is session.submit(self._execute_after_prepare, host, connection, pool))"""
+        if not self.cb_stack or not self.pool_has_conn():
+            return
+        r = self.cb_stack[-1]
+        rf = self.tokens.get(r, {}).get('fut')
+        if rf is None or self.tokens[r].get('kind') != 'query':
+            return
+        from cassandra.protocol import PrepareMessage
+        r2 = a['r2']
+        self.tokens[r2] = {'kind': 'prepare', 'fut': rf, 'parent': r}
+        self._arm_borrow(r2)
+        self.next_token, self.next_nested_cb, self.next_nested_send = r2, None, None
+        self.in_query = True
+        try:
+            rf._reprepare(PrepareMessage(query='SELECT 1'), self.host, self.conn, self.pool)
+        finally:
+            self.in_query = False
+            self._disarm_borrow(r2, False)
+            self.next_token = None
+        self.checkpoint()
+
+    def pending_tasks(self):
+        return [t for t in self.session.submitted if getattr(t[0], '__name__', '') == '_execute_after_prepare']
+
+    def a_run_tasks(self, a):
+        """the session executor runs the queued REAL _execute_after_prepare(host, connection, pool, response) tasks"""
+        for t in self.pending_tasks():
+            self.session.submitted.remove(t)
+            tok = self.prepare_delivered.pop(0) if self.prepare_delivered else None
+            fn, args, kw = t
+            try:
+                fn(*args, **kw)
+            finally:
+                # the handler of the re-PREPARE has finished: a unit it did not hand back is leaked
+                self.owed_tokens.discard(tok)
+            self.checkpoint()
 
     def a_respond_tok(self, a):
         """answer the request with token r (on whatever stream it was sent)"""
